@@ -232,7 +232,7 @@ func runC04(c *Ctx) {
 	r := c.R
 	r.Assume("ground truth is attached by construction: the statement forms are non-idempotent or unparseable by the documented rules; EXECUTE/BATCH-by-id inherit the class of the text the id was prepared from through this proxy, ids the proxy never saw prepared are not positively idempotent")
 	r.Assume("'may have been applied' is decided from the backend's view: the request bytes were fully received and the outcome is not one of unavailable / bootstrapping / read timeout / unprepared")
-	r.Require("sequences_run", "partial_reply_cases", "lost_before_read_cases", "proxy_closed_connections_with_requests_in_flight", "custom_policy_cases", "redefined_id_cases")
+	r.Require("sequences_run", "partial_reply_cases", "lost_before_read_cases", "proxy_closed_connections_with_requests_in_flight", "custom_policy_cases", "redefined_id_cases", "partial_write_cases")
 	type job struct {
 		hosts, conns int
 		class        c04Class
@@ -397,6 +397,13 @@ func runC04(c *Ctx) {
 	for i := 0; i < c.Pick(4, 200); i++ {
 		if c.Mine(i) && c.Replay == nil {
 			proxyClosesConn(c, 1000+i, []string{"idle-timeout", "host-removed"}[i%2])
+		}
+	}
+	// a write that reached its node in the middle of a pass of the connection's writer, before the node was lost
+	for i := 0; i < c.Pick(2, 12); i++ {
+		if (c.Mine(i+3) && c.Replay == nil) || (c.Replay != nil && c.Replay["kind"] == "c04-partial-write" && int(c.Replay["idx"].(float64)) == i) {
+			for try := 0; try < 3 && !c04PartialWrite(c, i); try++ { // the premise (the nodes are used in turn) can be missed
+			}
 		}
 	}
 	var _ = px.HookCount
